@@ -256,4 +256,836 @@ theorem withdraw_live {w : World} {p h a : Nat} {P : PairSt}
   simp only [q0, q1, qS, hratio, hm0, hm1, hp0, hp1, hb, ok_bind]
   rfl
 
+/-! ### provision: inversion -/
+
+theorem select_ok {as0 as1 a : Asset} {am0 am1 d : Nat}
+    (h : (if as0 = a then pure am0 else if as1 = a then pure am1 else .error .abort : M Nat) = .ok d) :
+    (as0 = a ∧ d = am0) ∨ (as0 ≠ a ∧ as1 = a ∧ d = am1) := by
+  by_cases h0 : as0 = a
+  · rw [if_pos h0, pure_ok_iff] at h; exact Or.inl ⟨h0, h.symm⟩
+  · rw [if_neg h0] at h
+    by_cases h1 : as1 = a
+    · rw [if_pos h1, pure_ok_iff] at h; exact Or.inr ⟨h0, h1, h.symm⟩
+    · rw [if_neg h1] at h; cases h
+
+theorem netPool_ok {a : Asset} {r d v : Nat}
+    (h : (match a with | .token _ => pure r | .native _ => Cw.checkedSub r d : M Nat) = .ok v) :
+    v = (match (generalizing := false) a with | .native _ => r - d | .token _ => r) := by
+  cases a with
+  | native x => simp only [Cw.checkedSub_ok] at h; exact h.2
+  | token x => simp only [pure_ok_iff] at h; exact h.symm
+
+theorem unwrap_ok {x : M Nat} {v : Nat}
+    (h : (match x with | .ok m => pure m | .error _ => .error .abort : M Nat) = .ok v) : x = .ok v := by
+  cases x with
+  | error e => cases h
+  | ok m => simp only [pure_ok_iff] at h; rw [h]
+
+theorem sent_c09 {a : Asset} {am d : Nat} {funds : List (Nat × Nat)} {u : Unit}
+    (h : assertSent a am funds = .ok u) (e : a = .native d) : Spec.c09 d am funds = true := by
+  subst e
+  exact (Halo.Props.C09.assertSent_iff d am funds).1 h
+
+/-- the cw20 deposit pulled by `provide_liquidity` for one asset (nothing for a native asset) -/
+theorem pull_ok {w w1 : World} {a : Asset} {p s d : Nat}
+    (h : (match a with | .token t => tokTransferFrom w t p s p d | .native _ => pure w : M World) = .ok w1) :
+    (∀ b, b ≠ a → ∀ z, bal w1 b z = bal w b z) ∧
+    (∀ b z, z ≠ p → z ≠ s → bal w1 b z = bal w b z) ∧
+    (∀ u, supply w1 u = supply w u) ∧
+    (∀ d', a = .native d' → w1 = w) ∧
+    (∀ t, a = .token t → d ≤ bal w a s ∧ ∀ z, bal w1 a z =
+        if z = p then (if z = s then bal w a z - d else bal w a z) + d
+        else if z = s then bal w a z - d else bal w a z) := by
+  cases a with
+  | native x =>
+    simp only [pure_ok_iff] at h
+    subst h
+    exact ⟨fun _ _ _ => rfl, fun _ _ _ _ => rfl, fun _ => rfl, fun _ _ => rfl, fun t e => by cases e⟩
+  | token t =>
+    simp only at h
+    have B := bal_tokTransferFrom h
+    refine ⟨?_, ?_, supply_tokTransferFrom h, ?_, ?_⟩
+    · intro b hb z; rw [B, if_neg hb]
+    · intro b z hz1 hz2; rw [B, if_neg hz1, if_neg hz2]; simp
+    · intro _ e; cases e
+    · intro t' e
+      obtain ⟨T, al, hT, _, _, hle, _⟩ := tokTransferFrom_ok h
+      refine ⟨by simp [bal, hT, hle], fun z => ?_⟩
+      rw [B, if_pos rfl]
+
+theorem pairProvide_ok {w w' : World} {p : Nat} {P : PairSt} {s : Nat} {funds : List (Nat × Nat)}
+    {as0 as1 : Asset} {am0 am1 : Nat} {tol rcv : Option Nat} {m : Nat}
+    (h : pairProvide w p P s funds as0 am0 as1 am1 tol rcv = .ok (w', m)) :
+    assertSent as0 am0 funds = .ok () ∧ assertSent as1 am1 funds = .ok () ∧
+    ∃ d0 d1 share w1 w2 w3,
+      ((as0 = P.a0 ∧ d0 = am0) ∨ (as0 ≠ P.a0 ∧ as1 = P.a0 ∧ d0 = am1)) ∧
+      ((as0 = P.a1 ∧ d1 = am0) ∨ (as0 ≠ P.a1 ∧ as1 = P.a1 ∧ d1 = am1)) ∧
+      lpShare s P.req (supply w P.lp) d0 d1
+        (match P.a0 with | .native _ => bal w P.a0 p - d0 | .token _ => bal w P.a0 p)
+        (match P.a1 with | .native _ => bal w P.a1 p - d1 | .token _ => bal w P.a1 p) = .ok share ∧
+      share ≠ 0 ∧
+      ((supply w P.lp = 0 ∧ share = m + 1 ∧ tokMint w2 P.lp p P.lp 1 = .ok w3) ∨
+       (supply w P.lp ≠ 0 ∧ share = m ∧ w3 = w2)) ∧
+      (match P.a0 with | .token t => tokTransferFrom w t p s p d0 | .native _ => pure w : M World) = .ok w1 ∧
+      (match P.a1 with | .token t => tokTransferFrom w1 t p s p d1 | .native _ => pure w1 : M World) = .ok w2 ∧
+      tokMint w3 P.lp p (rcv.getD s) m = .ok w' := by
+  unfold pairProvide at h
+  simp only [bind_ok_iff] at h
+  obtain ⟨⟨⟩, hs0, ⟨⟩, hs1, r0, hr0, r1, hr1, d0, hd0, d1, hd1, s0, hs0', s1, hs1', pr, hpr, _, hfu, p0, hp0, p1, hp1,
+    ⟨⟩, hsl, S, hS, share, hsh, hrest⟩ := h
+  have e0 := balOf_ok hr0
+  have e1 := balOf_ok hr1
+  obtain ⟨eS, -⟩ := supplyOf_ok hS
+  have ep0 := netPool_ok hp0
+  have ep1 := netPool_ok hp1
+  have hsh' := unwrap_ok hsh
+  subst e0 e1 eS ep0 ep1
+  by_cases hz : share = 0
+  · rw [if_pos hz] at hrest; cases hrest
+  · rw [if_neg hz] at hrest
+    simp only [bind_ok_iff, pure_ok_iff, Prod.mk.injEq] at hrest
+    obtain ⟨share', hsh1, w1, hw1, w2, hw2, w3, hw3, w4, hw4, rfl, rfl⟩ := hrest
+    refine ⟨hs0, hs1, d0, d1, share, w1, w2, w3, select_ok hd0, select_ok hd1, hsh', hz, ?_, hw1, hw2, hw4⟩
+    by_cases hS0 : supply w P.lp = 0
+    · rw [if_pos hS0] at hsh1 hw3
+      rw [Cw.checkedSub_ok] at hsh1
+      exact Or.inl ⟨hS0, by omega, hw3⟩
+    · rw [if_neg hS0] at hsh1 hw3
+      rw [pure_ok_iff] at hsh1 hw3
+      exact Or.inr ⟨hS0, hsh1, hw3.symm⟩
+
+/-! ### provision: effect -/
+
+theorem provide_effect_pos {w0 w' : World} {p : Nat} {P : PairSt} {s : Nat} {funds : List (Nat × Nat)}
+    {as0 as1 : Asset} {am0 am1 : Nat} {tol rcv : Option Nat} {m : Nat}
+    (hsp : s ≠ p) (hne : P.a0 ≠ P.a1) (hl0 : P.a0 ≠ .token P.lp) (hl1 : P.a1 ≠ .token P.lp)
+    (hS : supply w0 P.lp ≠ 0)
+    (h : pairProvide w0 p P s funds as0 am0 as1 am1 tol rcv = .ok (w', m)) :
+    ∃ d0 d1,
+      ((as0 = P.a0 ∧ d0 = am0) ∨ (as0 ≠ P.a0 ∧ as1 = P.a0 ∧ d0 = am1)) ∧
+      ((as0 = P.a1 ∧ d1 = am0) ∨ (as0 ≠ P.a1 ∧ as1 = P.a1 ∧ d1 = am1)) ∧
+      (∀ d, P.a0 = .native d → Spec.c09 d d0 funds = true ∧ bal w' P.a0 p = bal w0 P.a0 p) ∧
+      (∀ d, P.a1 = .native d → Spec.c09 d d1 funds = true ∧ bal w' P.a1 p = bal w0 P.a1 p) ∧
+      (∀ t, P.a0 = .token t → bal w' P.a0 p = bal w0 P.a0 p + d0 ∧ bal w' P.a0 s + d0 = bal w0 P.a0 s) ∧
+      (∀ t, P.a1 = .token t → bal w' P.a1 p = bal w0 P.a1 p + d1 ∧ bal w' P.a1 s + d1 = bal w0 P.a1 s) ∧
+      1 ≤ m ∧
+      Spec.c05Pos (supply w0 P.lp) d0 d1
+        (match P.a0 with | .native _ => bal w0 P.a0 p - d0 | .token _ => bal w0 P.a0 p)
+        (match P.a1 with | .native _ => bal w0 P.a1 p - d1 | .token _ => bal w0 P.a1 p) m = true ∧
+      supply w' P.lp = supply w0 P.lp + m ∧
+      bal w' (.token P.lp) (rcv.getD s) = bal w0 (.token P.lp) (rcv.getD s) + m ∧
+      (∀ b z, z ≠ s → z ≠ p → z ≠ rcv.getD s → bal w' b z = bal w0 b z) := by
+  obtain ⟨hs0, hs1, d0, d1, share, w1, w2, w3, sel0, sel1, hshare, hnz, hcase, hw1, hw2, hmint⟩ := pairProvide_ok h
+  rcases hcase with ⟨h0, _, _⟩ | ⟨_, rfl, rfl⟩
+  · exact absurd h0 hS
+  obtain ⟨A1, A2, A3, A4, A5⟩ := pull_ok hw1
+  obtain ⟨B1, B2, B3, B4, B5⟩ := pull_ok hw2
+  have Mb := bal_tokMint hmint
+  have Ms := supply_tokMint hmint
+  have hne' : P.a1 ≠ P.a0 := Ne.symm hne
+  have hps : p ≠ s := Ne.symm hsp
+  refine ⟨d0, d1, sel0, sel1, ?_, ?_, ?_, ?_, Nat.pos_of_ne_zero hnz,
+    Halo.C04.share_bounds_pos hS hshare, ?_, ?_, ?_⟩
+  · intro d e
+    refine ⟨?_, ?_⟩
+    · rcases sel0 with ⟨e0, rfl⟩ | ⟨_, e1, rfl⟩
+      · exact sent_c09 hs0 (e0.trans e)
+      · exact sent_c09 hs1 (e1.trans e)
+    · rw [Mb, if_neg (fun hh => hl0 hh.1), B1 _ hne, A4 d e]
+  · intro d e
+    refine ⟨?_, ?_⟩
+    · rcases sel1 with ⟨e0, rfl⟩ | ⟨_, e1, rfl⟩
+      · exact sent_c09 hs0 (e0.trans e)
+      · exact sent_c09 hs1 (e1.trans e)
+    · rw [Mb, if_neg (fun hh => hl1 hh.1), B4 d e]
+      exact A1 _ hne' _
+  · intro t e
+    obtain ⟨hle, hb⟩ := A5 t e
+    rw [Mb, if_neg (fun hh => hl0 hh.1), B1 _ hne, Mb, if_neg (fun hh => hl0 hh.1), B1 _ hne, hb, hb]
+    simp only [hsp, hps, ↓reduceIte, true_and]
+    omega
+  · intro t e
+    obtain ⟨hle, hb⟩ := B5 t e
+    rw [Mb, if_neg (fun hh => hl1 hh.1), Mb, if_neg (fun hh => hl1 hh.1), hb, hb] 
+    rw [A1 _ hne'] at hle
+    simp only [hsp, hps, ↓reduceIte, A1 _ hne', true_and]
+    omega
+  · rw [Ms, if_pos rfl, B3, A3]
+  · rw [Mb, if_pos ⟨rfl, rfl⟩, B1 _ (Ne.symm hl1), A1 _ (Ne.symm hl0)]
+  · intro b z hz1 hz2 hz3
+    rw [Mb, if_neg (fun hh => hz3 hh.2), B2 _ _ hz2 hz1, A2 _ _ hz2 hz1]
+
+theorem provide_effect_empty {w0 w' : World} {p : Nat} {P : PairSt} {s : Nat} {funds : List (Nat × Nat)}
+    {as0 as1 : Asset} {am0 am1 : Nat} {tol rcv : Option Nat} {m : Nat}
+    (hl0 : P.a0 ≠ .token P.lp) (hl1 : P.a1 ≠ .token P.lp) (hrl : rcv.getD s ≠ P.lp)
+    (hS : supply w0 P.lp = 0)
+    (h : pairProvide w0 p P s funds as0 am0 as1 am1 tol rcv = .ok (w', m)) :
+    ∃ d0 d1,
+      ((as0 = P.a0 ∧ d0 = am0) ∨ (as0 ≠ P.a0 ∧ as1 = P.a0 ∧ d0 = am1)) ∧
+      ((as0 = P.a1 ∧ d1 = am0) ∨ (as0 ≠ P.a1 ∧ as1 = P.a1 ∧ d1 = am1)) ∧
+      Spec.c05Empty s P.req d0 d1 (m + 1) = true ∧ 1 ≤ m ∧
+      supply w' P.lp = m + 1 ∧
+      bal w' (.token P.lp) P.lp = bal w0 (.token P.lp) P.lp + 1 ∧
+      bal w' (.token P.lp) (rcv.getD s) = bal w0 (.token P.lp) (rcv.getD s) + m := by
+  obtain ⟨hs0, hs1, d0, d1, share, w1, w2, w3, sel0, sel1, hshare, hnz, hcase, hw1, hw2, hmint⟩ := pairProvide_ok h
+  rcases hcase with ⟨_, rfl, hm1⟩ | ⟨h0, _, _⟩
+  swap
+  · exact absurd hS h0
+  obtain ⟨A1, A2, A3, A4, A5⟩ := pull_ok hw1
+  obtain ⟨B1, B2, B3, B4, B5⟩ := pull_ok hw2
+  have Mb := bal_tokMint hmint
+  have Ms := supply_tokMint hmint
+  have Rb := bal_tokMint hm1
+  have Rs := supply_tokMint hm1
+  obtain ⟨_, _, hm0, _⟩ := tokMint_ok hmint
+  rw [hS] at hshare
+  refine ⟨d0, d1, sel0, sel1, (Halo.C04.share_bounds_empty hshare).1, Nat.pos_of_ne_zero hm0, ?_, ?_, ?_⟩
+  · rw [Ms, if_pos rfl, Rs, if_pos rfl, B3, A3, hS]; omega
+  · rw [Mb, if_neg (fun hh => hrl hh.2.symm), Rb, if_pos ⟨rfl, rfl⟩, B1 _ (Ne.symm hl1), A1 _ (Ne.symm hl0)]
+  · rw [Mb, if_pos ⟨rfl, rfl⟩, Rb, if_neg (fun hh => hrl hh.2), B1 _ (Ne.symm hl1), A1 _ (Ne.symm hl0)]
+
+/-! ### sums of balances under point updates -/
+
+theorem sum_pointUpd {f g : Nat → Nat} {c : Nat} (hfg : ∀ z, z ≠ c → g z = f z) :
+    ∀ L : List Nat, L.Nodup →
+      (L.map g).sum + (if c ∈ L then f c else 0) = (L.map f).sum + (if c ∈ L then g c else 0)
+  | [], _ => by simp
+  | x :: L, hn => by
+    have hx : x ∉ L := (List.nodup_cons.mp hn).1
+    have hL := (List.nodup_cons.mp hn).2
+    have ih := sum_pointUpd hfg L hL
+    by_cases hxc : x = c
+    · subst hxc
+      simp only [hx, if_false, Nat.add_zero] at ih
+      simp only [List.map_cons, List.sum_cons, List.mem_cons, true_or, if_true, ih]
+      omega
+    · have hcx : c ≠ x := Ne.symm hxc
+      simp only [List.map_cons, List.sum_cons, List.mem_cons, hcx, false_or, hfg x hxc]
+      omega
+
+theorem sum_zero {f : Nat → Nat} (hf : ∀ z, f z = 0) : ∀ L : List Nat, (L.map f).sum = 0
+  | [] => rfl
+  | x :: L => by simp only [List.map_cons, List.sum_cons, hf x, sum_zero hf L]
+
+theorem tokSumOK_congr {w w' : World} {t : Nat} (hb : ∀ z, bal w' (.token t) z = bal w (.token t) z)
+    (hs : supply w' t = supply w t) (h : TokSumOK w t) : TokSumOK w' t := by
+  intro L hL
+  have e : sumBal w' (.token t) L = sumBal w (.token t) L := by
+    unfold sumBal
+    congr 1
+    exact List.map_congr_left (fun z _ => hb z)
+  rw [e, hs]
+  exact h L hL
+
+theorem tokSumOK_move {w w' : World} {t src dst amt : Nat} (hle : amt ≤ bal w (.token t) src)
+    (hb : ∀ z, bal w' (.token t) z =
+      if z = dst then (if z = src then bal w (.token t) z - amt else bal w (.token t) z) + amt
+      else if z = src then bal w (.token t) z - amt else bal w (.token t) z)
+    (hs : supply w' t = supply w t) (h : TokSumOK w t) : TokSumOK w' t := by
+  intro L hL
+  have H := h L hL
+  unfold sumBal at H ⊢
+  rw [hs]
+  have e1 := sum_pointUpd (f := bal w (.token t))
+    (g := fun z => if z = src then bal w (.token t) z - amt else bal w (.token t) z) (c := src)
+    (fun z hz => by simp only [if_neg hz]) L hL
+  have e2 := sum_pointUpd
+    (f := fun z => if z = src then bal w (.token t) z - amt else bal w (.token t) z)
+    (g := bal w' (.token t)) (c := dst)
+    (fun z hz => by rw [hb, if_neg hz]) L hL
+  rw [hb dst] at e2
+  simp only [if_true] at e1 e2
+  by_cases hsL : src ∈ L
+  · simp only [hsL, if_true] at e1
+    by_cases hdL : dst ∈ L
+    · simp only [hdL, if_true] at e2; omega
+    · simp only [hdL, if_false] at e2; omega
+  · simp only [hsL, if_false] at e1
+    have H' := h (src :: L) (List.nodup_cons.mpr ⟨hsL, hL⟩)
+    unfold sumBal at H'
+    simp only [List.map_cons, List.sum_cons] at H'
+    by_cases hdL : dst ∈ L
+    · simp only [hdL, if_true] at e2; omega
+    · simp only [hdL, if_false] at e2; omega
+
+theorem tokSumOK_mint {w w' : World} {t dst amt : Nat}
+    (hb : ∀ z, bal w' (.token t) z = if z = dst then bal w (.token t) z + amt else bal w (.token t) z)
+    (hs : supply w' t = supply w t + amt) (h : TokSumOK w t) : TokSumOK w' t := by
+  intro L hL
+  have H := h L hL
+  unfold sumBal at H ⊢
+  rw [hs]
+  have e := sum_pointUpd (f := bal w (.token t)) (g := bal w' (.token t)) (c := dst)
+    (fun z hz => by rw [hb, if_neg hz]) L hL
+  rw [hb dst] at e
+  simp only [if_true] at e
+  by_cases hdL : dst ∈ L
+  · simp only [hdL, if_true] at e; omega
+  · simp only [hdL, if_false] at e; omega
+
+theorem tokSumOK_burn {w w' : World} {t s amt : Nat} (hle : amt ≤ bal w (.token t) s)
+    (hb : ∀ z, bal w' (.token t) z = if z = s then bal w (.token t) z - amt else bal w (.token t) z)
+    (hs : supply w' t = supply w t - amt) (h : TokSumOK w t) : TokSumOK w' t := by
+  intro L hL
+  have H := h L hL
+  unfold sumBal at H ⊢
+  rw [hs]
+  have e := sum_pointUpd (f := bal w (.token t)) (g := bal w' (.token t)) (c := s)
+    (fun z hz => by rw [hb, if_neg hz]) L hL
+  rw [hb s] at e
+  simp only [if_true] at e
+  by_cases hsL : s ∈ L
+  · simp only [hsL, if_true] at e; omega
+  · simp only [hsL, if_false] at e
+    have H' := h (s :: L) (List.nodup_cons.mpr ⟨hsL, hL⟩)
+    unfold sumBal at H'
+    simp only [List.map_cons, List.sum_cons] at H'
+    omega
+
+/-! ### the ledger invariant pair carried through every handler -/
+
+/-- what every handler guarantees of the token ledgers: conservation is preserved, and an account that is
+not an admissible source (`ok`) never loses tokens -/
+structure Good (ok : Nat → Prop) (w w' : World) : Prop where
+  sum : ∀ t, TokSumOK w t → TokSumOK w' t
+  keep : ∀ t x, ¬ ok x → bal w (.token t) x ≤ bal w' (.token t) x
+
+theorem Good.refl (ok : Nat → Prop) (w : World) : Good ok w w := ⟨fun _ h => h, fun _ _ _ => Nat.le_refl _⟩
+
+theorem Good.trans {ok : Nat → Prop} {a b c : World} (h1 : Good ok a b) (h2 : Good ok b c) : Good ok a c :=
+  ⟨fun t h => h2.sum t (h1.sum t h), fun t x hx => Nat.le_trans (h1.keep t x hx) (h2.keep t x hx)⟩
+
+theorem good_of_eq {ok : Nat → Prop} {w w' : World}
+    (hb : ∀ u z, bal w' (.token u) z = bal w (.token u) z) (hs : ∀ u, supply w' u = supply w u) : Good ok w w' :=
+  ⟨fun t h => tokSumOK_congr (hb t) (hs t) h, fun t x _ => by rw [hb]⟩
+
+theorem good_of_tok {ok : Nat → Prop} {w w' : World} (h : w'.tok = w.tok) : Good ok w w' :=
+  good_of_eq (fun u z => by simp [bal, h]) (fun u => by simp [supply, h])
+
+theorem good_move {ok : Nat → Prop} {w w' : World} {t src dst amt : Nat} (hsrc : ok src)
+    (hle : amt ≤ bal w (.token t) src)
+    (hb : ∀ a z, bal w' a z =
+      if a = .token t then
+        (if z = dst then (if z = src then bal w a z - amt else bal w a z) + amt
+         else if z = src then bal w a z - amt else bal w a z)
+      else bal w a z)
+    (hs : ∀ u, supply w' u = supply w u) : Good ok w w' := by
+  constructor
+  · intro u h
+    by_cases hu : u = t
+    · subst hu
+      exact tokSumOK_move hle (fun z => by rw [hb, if_pos rfl]) (hs u) h
+    · exact tokSumOK_congr (fun z => by rw [hb, if_neg (by simpa using hu)]) (hs u) h
+  · intro u x hx
+    have hxs : x ≠ src := fun e => hx (e ▸ hsrc)
+    rw [hb]
+    simp only [if_neg hxs]
+    split
+    · split <;> omega
+    · exact Nat.le_refl _
+
+theorem good_transfer {ok : Nat → Prop} {w w' : World} {t src dst amt : Nat} (hsrc : ok src)
+    (h : tokTransfer w t src dst amt = .ok w') : Good ok w w' := by
+  obtain ⟨T, hT, _, hle, _⟩ := tokTransfer_ok h
+  exact good_move hsrc (by simp [bal, hT, hle]) (bal_tokTransfer h) (supply_tokTransfer h)
+
+theorem good_transferFrom {ok : Nat → Prop} {w w' : World} {t sp owner dst amt : Nat} (hsrc : ok owner)
+    (h : tokTransferFrom w t sp owner dst amt = .ok w') : Good ok w w' := by
+  obtain ⟨T, al, hT, _, _, hle, _⟩ := tokTransferFrom_ok h
+  exact good_move hsrc (by simp [bal, hT, hle]) (bal_tokTransferFrom h) (supply_tokTransferFrom h)
+
+theorem good_mint {ok : Nat → Prop} {w w' : World} {t s dst amt : Nat}
+    (h : tokMint w t s dst amt = .ok w') : Good ok w w' := by
+  have B := bal_tokMint h
+  have S := supply_tokMint h
+  constructor
+  · intro u hk
+    by_cases hu : u = t
+    · subst hu
+      exact tokSumOK_mint (dst := dst) (amt := amt) (fun z => by rw [B]; simp) (by rw [S, if_pos rfl]) hk
+    · exact tokSumOK_congr (fun z => by rw [B, if_neg (by simp [hu])]) (by rw [S, if_neg hu]) hk
+  · intro u x _
+    rw [B]
+    split
+    · omega
+    · exact Nat.le_refl _
+
+theorem good_burn {ok : Nat → Prop} {w w' : World} {t s amt : Nat} (hsrc : ok s)
+    (h : tokBurn w t s amt = .ok w') : Good ok w w' := by
+  have B := bal_tokBurn h
+  have S := supply_tokBurn h
+  obtain ⟨_, hle, _⟩ := tokBurn_le h
+  constructor
+  · intro u hk
+    by_cases hu : u = t
+    · subst hu
+      exact tokSumOK_burn hle (fun z => by rw [B]; simp) (by rw [S, if_pos rfl]) hk
+    · exact tokSumOK_congr (fun z => by rw [B, if_neg (by simp [hu])]) (by rw [S, if_neg hu]) hk
+  · intro u x hx
+    have hxs : x ≠ s := fun e => hx (e ▸ hsrc)
+    rw [B, if_neg (fun hh => hxs hh.2)]
+
+theorem good_incAllow {ok : Nat → Prop} {w w' : World} {t o s amt : Nat}
+    (h : tokIncAllow w t o s amt = .ok w') : Good ok w w' :=
+  good_of_eq (fun _ z => bal_tokIncAllow h _ z) (supply_tokIncAllow h)
+
+/-- a freshly instantiated cw20 contract with no balances and no supply -/
+theorem good_create {ok : Nat → Prop} {w w' : World} {nl : Nat} {T : Token}
+    (hfresh : w.tok nl = none) (hTb : ∀ z, T.bal z = 0)
+    (htok : w'.tok = fun a => if a = nl then some T else w.tok a) : Good ok w w' := by
+  have hbne : ∀ u, u ≠ nl → ∀ z, bal w' (.token u) z = bal w (.token u) z := by
+    intro u hu z; simp [bal, htok, hu]
+  have hsne : ∀ u, u ≠ nl → supply w' u = supply w u := by
+    intro u hu; simp [supply, htok, hu]
+  have hbnl : ∀ z, bal w' (.token nl) z = 0 := by
+    intro z; simp [bal, htok, hTb]
+  constructor
+  · intro u hk
+    by_cases hu : u = nl
+    · subst hu
+      intro L _
+      unfold sumBal
+      rw [sum_zero hbnl]
+      exact Nat.zero_le _
+    · exact tokSumOK_congr (hbne u hu) (hsne u hu) hk
+  · intro u x _
+    by_cases hu : u = nl
+    · subst hu
+      have : bal w (.token u) x = 0 := by simp [bal, hfresh]
+      omega
+    · rw [hbne u hu]
+
+/-! ### every handler is `Good` -/
+
+section handlers
+variable {ok : Nat → Prop}
+
+theorem good_bankSend {w w' : World} {s d : Nat} {cs : List (Nat × Nat)}
+    (h : bankSend w s d cs = .ok w') : Good ok w w' := good_of_tok (bankSend_same h).2
+
+theorem good_attach {w w' : World} {s d : Nat} {cs : List (Nat × Nat)}
+    (h : attach w s d cs = .ok w') : Good ok w w' := good_of_tok (attach_same h).2
+
+theorem good_payout {w w' : World} {src : Nat} {a : Asset} {dst amt : Nat} (hsrc : ok src)
+    (h : payout w src a dst amt = .ok w') : Good ok w w' := by
+  cases a with
+  | native d => exact good_bankSend h
+  | token t => exact good_transfer hsrc h
+
+theorem sgood_pairSwap {w w' : World} {p : Nat} {P : PairSt} {funds : List (Nat × Nat)} {trader : Nat}
+    {offer : Asset} {amt : Nat} {b ms tt : Option Nat} {o : SwapOut} (hp : ok p)
+    (h : pairSwap w p P funds trader offer amt b ms tt = .ok (w', o)) : Same w w' ∧ Good ok w w' := by
+  obtain ⟨_, _, _, x, y, ask, od, ad, n, s, k, _, _, _, _, hw⟩ := Halo.C02.pairSwap_ok h
+  rcases hw with ⟨_, rfl⟩ | ⟨_, hp'⟩
+  · exact ⟨Same.refl _, Good.refl _ _⟩
+  · exact ⟨payout_same hp', good_payout hp hp'⟩
+
+theorem good_pairWithdraw {w : World} {p : Nat} {P : PairSt} {s a : Nat} {r : World × Nat × Nat} (hp : ok p)
+    (h : pairWithdraw w p P s a = .ok r) : Good ok w r.1 := by
+  obtain ⟨w', x0, x1⟩ := r
+  obtain ⟨_, _, _, w1, w2, h0, h1, hb⟩ := pairWithdraw_ok h
+  exact ((good_payout hp h0).trans (good_payout hp h1)).trans (good_burn hp hb)
+
+theorem good_pull {w w1 : World} {a : Asset} {p s d : Nat} (hs : ok s)
+    (h : (match a with | .token t => tokTransferFrom w t p s p d | .native _ => pure w : M World) = .ok w1) :
+    Good ok w w1 := by
+  cases a with
+  | native x => simp only [pure_ok_iff] at h; subst h; exact Good.refl _ _
+  | token t => exact good_transferFrom hs h
+
+theorem good_pairProvide {w : World} {p : Nat} {P : PairSt} {s : Nat} {funds : List (Nat × Nat)}
+    {as0 as1 : Asset} {am0 am1 : Nat} {tol rcv : Option Nat} {r : World × Nat} (hs : ok s)
+    (h : pairProvide w p P s funds as0 am0 as1 am1 tol rcv = .ok r) : Good ok w r.1 := by
+  obtain ⟨w', m⟩ := r
+  obtain ⟨_, _, d0, d1, share, w1, w2, w3, _, _, _, _, hcase, hw1, hw2, hmint⟩ := pairProvide_ok h
+  have g12 := (good_pull hs hw1).trans (good_pull hs hw2)
+  have g3 : Good ok w2 w3 := by
+    rcases hcase with ⟨_, _, hm⟩ | ⟨_, _, rfl⟩
+    · exact good_mint hm
+    · exact Good.refl _ _
+  exact (g12.trans g3).trans (good_mint hmint)
+
+theorem pairReceive_swap_ok {w : World} {p t f amount : Nat} {offer : Asset} {amt : Nat} {b ms tt : Option Nat}
+    {r : World × Out} (h : pairReceive w p t f amount (.swap offer amt b ms tt) = .ok r) :
+    ∃ P o, w.pair p = some P ∧ pairSwap w p P [] f offer amt b ms tt = .ok (r.1, o) := by
+  unfold pairReceive at h
+  cases hP : w.pair p with
+  | none => simp [hP] at h
+  | some P =>
+    simp only [hP] at h
+    split at h
+    · cases h
+    simp only [bind_ok_iff] at h
+    obtain ⟨_, _, _, _, h⟩ := h
+    split at h
+    · cases h
+    split at h
+    · cases h
+    simp only [bind_ok_iff, pure_ok_iff] at h
+    obtain ⟨⟨w1, o⟩, hsw, rfl⟩ := h
+    exact ⟨P, o, rfl, hsw⟩
+
+theorem good_pairReceive {w : World} {p t f amount : Nat} {hk : Hook} {r : World × Out} (hp : ok p)
+    (h : pairReceive w p t f amount hk = .ok r) : Good ok w r.1 := by
+  cases hk with
+  | swap offer amt b ms tt =>
+    obtain ⟨P, o, _, hsw⟩ := pairReceive_swap_ok h
+    exact (sgood_pairSwap hp hsw).2
+  | withdraw =>
+    unfold pairReceive at h
+    cases hP : w.pair p with
+    | none => simp [hP] at h
+    | some P =>
+      simp only [hP] at h
+      split at h
+      · cases h
+      simp only [bind_ok_iff, pure_ok_iff] at h
+      obtain ⟨⟨w1, y0, y1⟩, hpw, rfl⟩ := h
+      exact good_pairWithdraw hp hpw
+  | routerOps ops mn tt =>
+    unfold pairReceive at h
+    cases hP : w.pair p with
+    | none => simp [hP] at h
+    | some P => simp [hP] at h
+  | garbage =>
+    unfold pairReceive at h
+    cases hP : w.pair p with
+    | none => simp [hP] at h
+    | some P => simp [hP] at h
+
+theorem good_tokSendPair {w : World} {t sender p amt : Nat} {hk : Hook} {r : World × Out}
+    (hs : ok sender) (hp : ok p) (h : tokSendPair w t sender p amt hk = .ok r) : Good ok w r.1 := by
+  unfold tokSendPair at h
+  simp only [bind_ok_iff] at h
+  obtain ⟨w1, h1, h2⟩ := h
+  exact (good_transfer hs h1).trans (good_pairReceive hp h2)
+
+theorem sgood_tokSendPair_swap {w : World} {t sender p amount : Nat} {offer : Asset} {amt : Nat}
+    {b ms tt : Option Nat} {r : World × Out}
+    (hs : ok sender) (hpairs : ∀ q, (w.pair q).isSome → ok q)
+    (h : tokSendPair w t sender p amount (.swap offer amt b ms tt) = .ok r) : Same w r.1 ∧ Good ok w r.1 := by
+  unfold tokSendPair at h
+  simp only [bind_ok_iff] at h
+  obtain ⟨w1, h1, h2⟩ := h
+  have s1 := (tokTransfer_same h1).1
+  obtain ⟨P, o, hP, hsw⟩ := pairReceive_swap_ok h2
+  rw [s1.pair] at hP
+  obtain ⟨s2, g2⟩ := sgood_pairSwap (hpairs p (by simp [hP])) hsw
+  exact ⟨s1.trans s2, (good_transfer hs h1).trans g2⟩
+
+theorem pairUpdateDecimals_tok {w w' : World} {p s d da db : Nat}
+    (h : pairUpdateDecimals w p s d da db = .ok w') : w'.tok = w.tok := by
+  unfold pairUpdateDecimals at h
+  split at h
+  · cases h
+  split at h
+  · cases h
+  injection h with h
+  subst h
+  rfl
+
+theorem good_pairExec {w : World} {s p : Nat} {funds : List (Nat × Nat)} {m : PairMsg} {r : World × Out}
+    (hs : ok s) (hp : ok p) (h : pairExec w s p funds m = .ok r) : Good ok w r.1 := by
+  unfold pairExec at h
+  cases hP : w.pair p with
+  | none => simp [hP] at h
+  | some P =>
+    simp only [hP, bind_ok_iff] at h
+    obtain ⟨w0, h0, h⟩ := h
+    refine (good_attach h0).trans ?_
+    cases m with
+    | provide as0 am0 as1 am1 tol rcv =>
+      simp only [bind_ok_iff, pure_ok_iff] at h
+      obtain ⟨⟨w1, sh⟩, h1, rfl⟩ := h
+      exact good_pairProvide hs h1
+    | swap offer amt b ms tt =>
+      cases offer with
+      | token x => simp at h
+      | native d =>
+        simp only [bind_ok_iff, pure_ok_iff] at h
+        obtain ⟨⟨w1, o⟩, h1, rfl⟩ := h
+        exact (sgood_pairSwap hp h1).2
+    | receive f amount hk => exact good_pairReceive hp h
+    | updateDecimals d da db =>
+      simp only [bind_ok_iff, pure_ok_iff] at h
+      obtain ⟨w1, h1, rfl⟩ := h
+      exact good_of_tok (pairUpdateDecimals_tok h1)
+
+theorem sgood_pairExec_swap {w : World} {s p : Nat} {funds : List (Nat × Nat)} {offer : Asset} {amt : Nat}
+    {b ms tt : Option Nat} {r : World × Out}
+    (hpairs : ∀ q, (w.pair q).isSome → ok q)
+    (h : pairExec w s p funds (.swap offer amt b ms tt) = .ok r) : Same w r.1 ∧ Good ok w r.1 := by
+  unfold pairExec at h
+  cases hP : w.pair p with
+  | none => simp [hP] at h
+  | some P =>
+    simp only [hP, bind_ok_iff] at h
+    obtain ⟨w0, h0, h⟩ := h
+    cases offer with
+    | token x => simp at h
+    | native d =>
+      simp only [bind_ok_iff, pure_ok_iff] at h
+      obtain ⟨⟨w1, o⟩, h1, rfl⟩ := h
+      obtain ⟨s2, g2⟩ := sgood_pairSwap (hpairs p (by simp [hP])) h1
+      exact ⟨(attach_same h0).1.trans s2, (good_attach h0).trans g2⟩
+
+theorem sgood_routerHop {w w' : World} {sender : Nat} {offer ask : Asset} {tt : Option Nat}
+    (hr : ok w.router) (hpairs : ∀ q, (w.pair q).isSome → ok q)
+    (h : routerHop w sender offer ask tt = .ok w') : Same w w' ∧ Good ok w w' := by
+  unfold routerHop at h
+  split at h
+  · cases h
+  split at h
+  · cases h
+  simp only [bind_ok_iff] at h
+  obtain ⟨amount, _, h⟩ := h
+  split at h
+  · simp only [bind_ok_iff, pure_ok_iff] at h
+    obtain ⟨⟨w1, o⟩, h1, rfl⟩ := h
+    exact sgood_pairExec_swap hpairs h1
+  · simp only [bind_ok_iff, pure_ok_iff] at h
+    obtain ⟨⟨w1, o⟩, h1, rfl⟩ := h
+    exact sgood_tokSendPair_swap hr hpairs h1
+
+theorem sgood_routerHops {tt : Nat} : ∀ (ops : List (Asset × Asset)) {w w' : World},
+    ok w.router → (∀ q, (w.pair q).isSome → ok q) → routerHops w tt ops = .ok w' → Same w w' ∧ Good ok w w'
+  | [], w, w', _, _, h => by
+    simp only [routerHops] at h; injection h with h; subst h; exact ⟨Same.refl _, Good.refl _ _⟩
+  | [(o, a)], w, w', hr, hp, h => by
+    simp only [routerHops] at h; exact sgood_routerHop hr hp h
+  | (o, a) :: b :: rest, w, w', hr, hp, h => by
+    simp only [routerHops, bind_ok_iff] at h
+    obtain ⟨w1, h1, h2⟩ := h
+    obtain ⟨s1, g1⟩ := sgood_routerHop hr hp h1
+    obtain ⟨s2, g2⟩ := sgood_routerHops (b :: rest) (by rw [s1.router]; exact hr)
+      (by intro q; rw [s1.pair]; exact hp q) h2
+    exact ⟨s1.trans s2, g1.trans g2⟩
+
+theorem good_routerSwapOps {name : Asset → String} {w w' : World} {sender : Nat} {ops : List (Asset × Asset)}
+    {mn tt : Option Nat} (hr : ok w.router) (hpairs : ∀ q, (w.pair q).isSome → ok q)
+    (h : routerSwapOps name w sender ops mn tt = .ok w') : Good ok w w' := by
+  unfold routerSwapOps at h
+  split at h
+  · cases h
+  simp only [bind_ok_iff] at h
+  obtain ⟨_, _, h⟩ := h
+  split at h
+  · exact (sgood_routerHops _ hr hpairs h).2
+  · simp only [bind_ok_iff, pure_ok_iff] at h
+    obtain ⟨_, _, w1, h1, _, _, rfl⟩ := h
+    exact (sgood_routerHops _ hr hpairs h1).2
+
+theorem good_routerReceive {name : Asset → String} {w w' : World} {from_ : Nat} {hk : Hook}
+    (hr : ok w.router) (hpairs : ∀ q, (w.pair q).isSome → ok q)
+    (h : routerReceive name w from_ hk = .ok w') : Good ok w w' := by
+  unfold routerReceive at h
+  split at h
+  · exact good_routerSwapOps hr hpairs h
+  · cases h
+
+theorem good_routerExec {name : Asset → String} {w w' : World} {sender : Nat} {funds : List (Nat × Nat)}
+    {m : RouterMsg} (hr : ok w.router) (hpairs : ∀ q, (w.pair q).isSome → ok q)
+    (h : routerExec name w sender funds m = .ok w') : Good ok w w' := by
+  unfold routerExec at h
+  simp only [bind_ok_iff] at h
+  obtain ⟨w0, h0, h⟩ := h
+  have s0 := (attach_same h0).1
+  have hr0 : ok w0.router := by rw [s0.router]; exact hr
+  have hp0 : ∀ q, (w0.pair q).isSome → ok q := by intro q; rw [s0.pair]; exact hpairs q
+  refine (good_attach h0).trans ?_
+  cases m with
+  | swapOps ops mn tt => exact good_routerSwapOps hr0 hp0 h
+  | swapOp o a tt => exact (sgood_routerHop hr0 hp0 h).2
+  | assertMin a prev mn rcv =>
+    simp only [bind_ok_iff, pure_ok_iff] at h
+    obtain ⟨_, _, rfl⟩ := h
+    exact Good.refl _ _
+  | receive from_ amount hk => exact good_routerReceive hr0 hp0 h
+
+theorem good_tokSend {name : Asset → String} {w : World} {t sender dst amt : Nat} {hk : Hook} {r : World × Out}
+    (hs : ok sender) (hr : ok w.router) (hpairs : ∀ q, (w.pair q).isSome → ok q)
+    (h : tokSend name w t sender dst amt hk = .ok r) : Good ok w r.1 := by
+  unfold tokSend at h
+  split at h
+  · rename_i hd
+    exact good_tokSendPair hs (hpairs dst hd) h
+  · split at h
+    · simp only [bind_ok_iff, pure_ok_iff] at h
+      obtain ⟨w1, h1, w2, h2, rfl⟩ := h
+      have s1 := (tokTransfer_same h1).1
+      exact (good_transfer hs h1).trans
+        (good_routerReceive (by rw [s1.router]; exact hr) (by intro q; rw [s1.pair]; exact hpairs q) h2)
+    · cases h
+
+/-! factory -/
+
+theorem facFanOut1_tok {denom decimals : Nat} {w w' : World} {msgs msgs' : List (Nat × Nat × Nat)}
+    {e : Bytes × Record} (h : facFanOut1 denom decimals (w, msgs) e = .ok (w', msgs')) : w'.tok = w.tok := by
+  unfold facFanOut1 at h
+  dsimp only at h
+  split at h
+  · cases h
+  injection h with h
+  by_cases h0 : e.2.a0 = .native denom <;> by_cases h1 : e.2.a1 = .native denom <;>
+    simp only [h0, h1, if_true, if_false, Prod.mk.injEq] at h <;>
+    (obtain ⟨rfl, _⟩ := h; rfl)
+
+theorem facFanOut_fold_tok {denom decimals : Nat} : ∀ (l : List (Bytes × Record)) {acc acc' : World × List (Nat × Nat × Nat)},
+    l.foldlM (facFanOut1 denom decimals) acc = .ok acc' → acc'.1.tok = acc.1.tok
+  | [], acc, acc', h => by
+    simp only [List.foldlM_nil, pure_ok_iff] at h; subst h; rfl
+  | e :: l, (w, msgs), acc', h => by
+    simp only [List.foldlM_cons, bind_ok_iff] at h
+    obtain ⟨⟨w1, msgs1⟩, h1, h2⟩ := h
+    exact (facFanOut_fold_tok l h2).trans (facFanOut1_tok h1)
+
+theorem facFanOutMsgs_tok {denom : Nat} : ∀ (l : List (Nat × Nat × Nat)) {w w' : World},
+    facFanOutMsgs denom w l = .ok w' → w'.tok = w.tok
+  | [], w, w', h => by
+    simp only [facFanOutMsgs] at h; injection h with h; subst h; rfl
+  | (p, da, db) :: rest, w, w', h => by
+    simp only [facFanOutMsgs, bind_ok_iff] at h
+    obtain ⟨w1, h1, h2⟩ := h
+    exact (facFanOutMsgs_tok rest h2).trans (pairUpdateDecimals_tok h1)
+
+theorem facAddDecimals_tok {w w' : World} {sender denom decimals : Nat}
+    (h : facAddDecimals w sender denom decimals = .ok w') : w'.tok = w.tok := by
+  unfold facAddDecimals at h
+  dsimp only at h
+  split at h
+  · cases h
+  split at h
+  · cases h
+  split at h
+  · simp only [bind_ok_iff] at h
+    obtain ⟨⟨w2, msgs⟩, h1, h2⟩ := h
+    exact (facFanOutMsgs_tok _ h2).trans (facFanOut_fold_tok _ h1)
+  · simp only [pure_ok_iff] at h
+    subst h
+    rfl
+
+theorem good_facCreatePair {w w' : World} {sender : Nat} {a0 a1 : Asset} {req : Requirements} {comm : Option Nat}
+    {np nl : Nat} (hfresh : w.tok nl = none)
+    (h : facCreatePair w sender a0 a1 req comm np nl = .ok w') : Good ok w w' := by
+  unfold facCreatePair at h
+  split at h
+  · cases h
+  split at h
+  · cases h
+  have h' : ∃ cb : Bool, (if cb = true then (.error .err : M World) else _) = .ok w' := ⟨_, h⟩
+  clear h
+  obtain ⟨cb, h⟩ := h'
+  split at h
+  · cases h
+  simp only [bind_ok_iff] at h
+  obtain ⟨d0, _, d1, _, h⟩ := h
+  split at h
+  · cases h
+  injection h with h
+  subst h
+  exact good_create hfresh (T := { bal := fun _ => 0, allow := fun _ _ => none, supply := 0, minter := some np, decimals := 6 })
+    (fun _ => rfl) rfl
+
+theorem good_facExec {w w' : World} {s : Nat} {funds : List (Nat × Nat)} {m : FacMsg}
+    (hfresh : ∀ a0 a1 req c np nl, m = .createPair a0 a1 req c np nl → w.tok nl = none)
+    (h : facExec w s funds m = .ok w') : Good ok w w' := by
+  unfold facExec at h
+  simp only [bind_ok_iff] at h
+  obtain ⟨w0, h0, h⟩ := h
+  have t0 := (attach_same h0).2
+  refine (good_attach h0).trans ?_
+  cases m with
+  | updateConfig o =>
+    have h : facUpdateConfig w0 s o = .ok w' := h
+    unfold facUpdateConfig at h
+    split at h
+    · cases h
+    injection h with h
+    subst h
+    exact good_of_tok rfl
+  | createPair a0 a1 req comm np nl =>
+    exact good_facCreatePair (by rw [t0]; exact hfresh _ _ _ _ _ _ rfl) h
+  | addDecimals d k => exact good_of_tok (facAddDecimals_tok h)
+  | migratePair p =>
+    have h : facMigratePair w0 s p = .ok w' := h
+    unfold facMigratePair at h
+    split at h
+    · cases h
+    split at h
+    · split at h
+      · injection h with h; subst h; exact Good.refl _ _
+      · cases h
+    · cases h
+
+end handlers
+
+/-- the whole-transaction statement -/
+theorem good_exec {name : Asset → String} {w w' : World} {op : Op} {out : Out}
+    (hf : FreshOK w op) (h : exec name w op = .ok (w', out)) :
+    Good (fun z => z = actorOf op ∨ (w.pair z).isSome ∨ z = w.router) w w' := by
+  have hr : (fun z => z = actorOf op ∨ (w.pair z).isSome ∨ z = w.router) w.router := Or.inr (Or.inr rfl)
+  have hpairs : ∀ q, (w.pair q).isSome → (fun z => z = actorOf op ∨ (w.pair z).isSome ∨ z = w.router) q :=
+    fun q hq => Or.inr (Or.inl hq)
+  have hact : (fun z => z = actorOf op ∨ (w.pair z).isSome ∨ z = w.router) (actorOf op) := Or.inl rfl
+  cases op with
+  | bankSend s d cs =>
+    simp only [exec, bind_ok_iff, pure_ok_iff, Prod.mk.injEq] at h
+    obtain ⟨w1, h1, rfl, _⟩ := h
+    exact good_bankSend h1
+  | tokTransfer t s d a =>
+    simp only [exec, bind_ok_iff, pure_ok_iff, Prod.mk.injEq] at h
+    obtain ⟨w1, h1, rfl, _⟩ := h
+    exact good_transfer hact h1
+  | tokSend t s d a hk =>
+    simp only [exec] at h
+    exact good_tokSend hact hr hpairs h
+  | tokIncAllow t o s a =>
+    simp only [exec, bind_ok_iff, pure_ok_iff, Prod.mk.injEq] at h
+    obtain ⟨w1, h1, rfl, _⟩ := h
+    exact good_incAllow h1
+  | tokBurn t s a =>
+    simp only [exec, bind_ok_iff, pure_ok_iff, Prod.mk.injEq] at h
+    obtain ⟨w1, h1, rfl, _⟩ := h
+    exact good_burn hact h1
+  | pair s p f m =>
+    simp only [exec] at h
+    have hp : (w.pair p).isSome := by
+      unfold pairExec at h
+      cases hP : w.pair p with
+      | none => simp [hP] at h
+      | some P => rfl
+    exact good_pairExec hact (hpairs p hp) h
+  | router s f m =>
+    simp only [exec, bind_ok_iff, pure_ok_iff, Prod.mk.injEq] at h
+    obtain ⟨w1, h1, rfl, _⟩ := h
+    exact good_routerExec hr hpairs h1
+  | factory s f m =>
+    simp only [exec, bind_ok_iff, pure_ok_iff, Prod.mk.injEq] at h
+    obtain ⟨w1, h1, rfl, _⟩ := h
+    exact good_facExec (fun a0 a1 req c np nl e => (hf s f a0 a1 req c np nl (by rw [e])).2) h1
+
+/-! ### C20 / C05W: the exported statements -/
+
+theorem tokSumOK_holder {w : World} {t h : Nat} (hk : TokSumOK w t) : bal w (.token t) h ≤ supply w t := by
+  have := hk [h] (List.nodup_cons.mpr ⟨List.not_mem_nil, List.nodup_nil⟩)
+  simpa [sumBal] using this
+
+theorem tokSumOK_step {name : Asset → String} {w w' : World} {op : Op} {out : Out} {t : Nat}
+    (hk : TokSumOK w t) (hf : FreshOK w op) (h : exec name w op = .ok (w', out)) : TokSumOK w' t :=
+  (good_exec hf h).sum t hk
+
+theorem reserved_unit_unspendable {name : Asset → String} {w w' : World} {op : Op} {out : Out} {p : Nat} {P : PairSt}
+    (_hP : w.pair p = some P) (hlpp : (w.pair P.lp).isNone) (hlr : P.lp ≠ w.router)
+    (_hnoallow : ∀ T, w.tok P.lp = some T → ∀ s, T.allow P.lp s = none)
+    (hact : actorOf op ≠ P.lp) (hf : FreshOK w op)
+    (h : exec name w op = .ok (w', out)) :
+    bal w (.token P.lp) P.lp ≤ bal w' (.token P.lp) P.lp := by
+  refine (good_exec hf h).keep P.lp P.lp ?_
+  rintro (e | e | e)
+  · exact hact e.symm
+  · rw [Option.isNone_iff_eq_none] at hlpp
+    rw [hlpp] at e
+    cases e
+  · exact hlr e
+
 end Halo.Liquidity
